@@ -5,7 +5,8 @@
    - items() / Scope::items() return exactly those lists (the iterators terminate and follow the links),
    - every variable and every scope occurs in exactly one list, exactly once,
    - the parent link of every item is the scope whose list holds it, and parents precede their children,
-   - no two sibling scopes share a name.
+   - no two sibling scopes share a name,
+   - within every list the variables appear in the order in which they were added, and so do the scopes.
    NOT proved: the pre-order walk function itself (its fuel argument), full_name, lookup_*; the signal-reference
    table.  Those are decided by the correspondence run against the rose-tree oracle (MANIFEST level_note). *)
 From Coq Require Import Permutation.
@@ -20,6 +21,7 @@ Check hierarchy_wellformed :
     (forall p x, pvalid ks p -> In x (kids kt ks p) -> parent_of b x = p) /\
     (forall i p, parent_of b (IScope i) = Some p -> (p < i)%nat) /\
     (forall p, pvalid ks p -> NoDup (scope_names b (kids kt ks p))) /\
+    (forall p, pvalid ks p -> increasing (vars_of (kids kt ks p)) /\ increasing (scopes_of (kids kt ks p))) /\
     length ks = length (hb_scopes b).
 
 (* the steps: what each builder call does to the children lists *)
